@@ -5,6 +5,7 @@ package main
 
 import (
 	"encoding/base64"
+	"encoding/json"
 	"fmt"
 	"strings"
 )
@@ -84,17 +85,33 @@ func genOid() string {
 	return strings.Join(parts, ".")
 }
 
+// stretch pads a string (one time in six) to a length around a boundary of the DER length octets
+// (127/128, 255/256, rarely 65535/65536), so that every nesting level meets each length form
+func stretch(s string) string {
+	if !chance(1, 6) {
+		return s
+	}
+	target := choose([]int{120, 125, 126, 127, 128, 129, 130, 200, 248, 250, 251, 252, 253, 254, 255, 256, 257, 258, 260, 300, 1000})
+	if chance(1, 40) {
+		target = choose([]int{65530, 65535, 65536, 65540})
+	}
+	if len(s) >= target {
+		return s
+	}
+	return s + strings.Repeat("a", target-len(s))
+}
+
 func genGeneralName(kinds []string) J {
 	k := choose(kinds)
 	switch k {
 	case "ip":
 		return J{"type": "ip", "name": fmt.Sprintf("%d.%d.%d.%d", choose([]int{0, 1, 127, 128, 255, 10}), rng.Intn(256), rng.Intn(256), choose([]int{0, 1, 254, 255}))}
 	case "dns":
-		return J{"type": "dns", "name": choose([]string{"a.example", "www.example.org", "*.wild.example", "xn--bcher-kva.example"})}
+		return J{"type": "dns", "name": stretch(choose([]string{"a.example", "www.example.org", "*.wild.example", "xn--bcher-kva.example"}))}
 	case "mail":
-		return J{"type": "mail", "name": choose([]string{"admin@example.com", "a@b.c"})}
+		return J{"type": "mail", "name": stretch(choose([]string{"admin@example.com", "a@b.c"}))}
 	default:
-		return J{"type": "url", "name": choose([]string{"http://example.org", "https://x.example/path?q=1"})}
+		return J{"type": "url", "name": stretch(choose([]string{"http://example.org", "https://x.example/path?q=1", "ldap://ldap.example/cn=admission,o=org?attr"}))}
 	}
 }
 
@@ -104,10 +121,10 @@ func genNamingAuthority() J {
 		na["oid"] = genOid()
 	}
 	if chance(1, 2) {
-		na["url"] = choose([]string{"http://example.org", "www.naming.auth"})
+		na["url"] = stretch(choose([]string{"http://example.org", "www.naming.auth"}))
 	}
 	if chance(1, 2) {
-		na["text"] = choose([]string{"my-naming-authority", "Ärztekammer", "text & more"})
+		na["text"] = stretch(choose([]string{"my-naming-authority", "Ärztekammer", "text & more"}))
 	}
 	return na
 }
@@ -132,7 +149,7 @@ func genAdmission() J {
 			pi := J{}
 			items := []string{}
 			for k := 0; k < rng.Intn(3)+1; k++ {
-				items = append(items, choose([]string{"Profession1", "Ärztin/Arzt", "Apotheker", "x"}))
+				items = append(items, stretch(choose([]string{"Profession1", "Ärztin/Arzt", "Apotheker", "x"})))
 			}
 			pi["professionItems"] = items
 			if chance(1, 2) {
@@ -146,7 +163,7 @@ func genAdmission() J {
 				pi["professionOids"] = oids
 			}
 			if chance(1, 2) {
-				pi["registrationNumber"] = choose([]string{"1-2-3-4-5", "3-SMC-B-Testkarte-883110000092400", "A*B"})
+				pi["registrationNumber"] = stretch(choose([]string{"1-2-3-4-5", "3-SMC-B-Testkarte-883110000092400", "A*B"}))
 			}
 			if chance(1, 2) {
 				pi["addProfessionInfo"] = choose([]string{"!binary:AQIDBA==", "!null", "!empty", b64raw(1 + rng.Intn(20))})
@@ -199,11 +216,11 @@ func genExtContent(kind string) any {
 				qs := []J{}
 				for j := 0; j < rng.Intn(3); j++ {
 					if chance(1, 2) {
-						qs = append(qs, J{"cps": choose([]string{"http://pki.example.com/myCps", "https://x/y"})})
+						qs = append(qs, J{"cps": stretch(choose([]string{"http://pki.example.com/myCps", "https://x/y"}))})
 					} else {
 						un := J{}
 						if chance(2, 3) {
-							un["organization"] = choose([]string{"Example Org", "Örg"})
+							un["organization"] = stretch(choose([]string{"Example Org", "Örg"}))
 						}
 						if chance(2, 3) {
 							nums := []int{}
@@ -213,7 +230,7 @@ func genExtContent(kind string) any {
 							un["numbers"] = nums
 						}
 						if chance(2, 3) {
-							un["text"] = choose([]string{"This is a user notice", "Hinweis: geprüft"})
+							un["text"] = stretch(choose([]string{"This is a user notice", "Hinweis: geprüft"}))
 						}
 						qs = append(qs, J{"userNotice": un})
 					}
@@ -226,7 +243,7 @@ func genExtContent(kind string) any {
 	case "authorityInformationAccess":
 		l := []J{}
 		for i := 0; i < 1+rng.Intn(3); i++ {
-			l = append(l, J{"ocsp": choose([]string{"http://ocsp.example.com", "http://ocsp2.example.com/x"})})
+			l = append(l, J{"ocsp": stretch(choose([]string{"http://ocsp.example.com", "http://ocsp2.example.com/x"}))})
 		}
 		return l
 	case "authorityKeyIdentifier":
@@ -430,4 +447,112 @@ func genManipulations() J {
 		}
 	}
 	return m
+}
+
+// ---------------------------------------------------------------- profiles for forests
+
+var profileResolvable = map[string]bool{"C": true, "CN": true, "ST": true, "L": true, "STREET": true, "O": true, "OU": true, "SERIALNUMBER": true}
+
+// subjectKeys: the attribute keys of a generated subject, in written order
+func subjectKeys(s string) []string {
+	var keys []string
+	for _, part := range strings.Split(s, ",") {
+		if i := strings.Index(part, "="); i >= 0 {
+			keys = append(keys, strings.TrimSpace(part[:i]))
+		}
+	}
+	return keys
+}
+
+// genSubjectAttrs draws a subjectAttributes block for a profile constraining `subject`:
+// mostly one the subject satisfies (exact list, or with optional extras), sometimes a stricter or unrelated one
+func genSubjectAttrs(subject string) J {
+	var attrs []J
+	other := false
+	for _, k := range subjectKeys(subject) {
+		if profileResolvable[k] {
+			attrs = append(attrs, J{"attribute": k})
+		} else {
+			other = true
+		}
+	}
+	allowOther := other || chance(1, 2)
+	switch r := rng.Intn(20); {
+	case r < 9: // exact
+	case r < 13: // optional extras in between
+		var out []J
+		for _, a := range attrs {
+			if chance(1, 2) {
+				out = append(out, J{"attribute": choose(profileAttrNames), "optional": true})
+			}
+			out = append(out, a)
+		}
+		attrs = append(out, J{"attribute": choose(profileAttrNames), "optional": true})
+	case r < 15: // mark present attributes optional
+		for _, a := range attrs {
+			if chance(1, 2) {
+				a["optional"] = true
+			}
+		}
+	case r < 17: // one attribute of the subject is not listed
+		if len(attrs) > 1 {
+			k := rng.Intn(len(attrs))
+			attrs = append(append([]J{}, attrs[:k]...), attrs[k+1:]...)
+		}
+		allowOther = chance(1, 2)
+	case r < 19: // an additional required attribute
+		k := rng.Intn(len(attrs) + 1)
+		attrs = append(append(append([]J{}, attrs[:k]...), J{"attribute": choose(profileAttrNames)}), attrs[k:]...)
+	default: // unrelated list
+		attrs = nil
+		for i := 0; i < 1+rng.Intn(3); i++ {
+			attrs = append(attrs, J{"attribute": choose(profileAttrNames), "optional": chance(1, 2)})
+		}
+		allowOther = chance(1, 2)
+	}
+	if len(attrs) == 0 {
+		attrs = []J{{"attribute": choose(profileAttrNames), "optional": true}}
+	}
+	return J{"attributes": attrs, "allowOther": allowOther}
+}
+
+type profileSpec struct {
+	name string
+	path string
+	cfg  J
+}
+
+func (p profileSpec) file() FileIn {
+	pj := must(json.Marshal(p.cfg))
+	return FileIn{Path: p.path, Kind: "profile", Json: pj, Text: renderText(pj, !strings.HasSuffix(p.path, ".json")), Age: 300 + rng.Intn(50)}
+}
+
+// attachProfiles gives some entities of a forest a profile of their own (extensions, validity,
+// and for half of them a subject constraint derived from the entity's subject)
+func attachProfiles(ents []entitySpec) []profileSpec {
+	var ps []profileSpec
+	for i := range ents {
+		if !chance(1, 3) {
+			continue
+		}
+		name := fmt.Sprintf("prof%d", i)
+		p := genProfile(name)
+		if chance(1, 2) {
+			p["subjectAttributes"] = genSubjectAttrs(ents[i].cfg["subject"].(string))
+		}
+		ents[i].cfg["profile"] = name
+		// an `override` extension of the profile must be supplied by the certificate: mostly do so
+		for _, pe := range p["extensions"].([]J) {
+			if ov, _ := pe["override"].(bool); ov && chance(4, 5) {
+				for k := range pe {
+					if k != "override" && k != "optional" {
+						exts, _ := ents[i].cfg["extensions"].([]J)
+						ents[i].cfg["extensions"] = append(exts, genExtension(k, false))
+					}
+				}
+			}
+		}
+		ps = append(ps, profileSpec{name: name, path: choose([]string{"", "profiles/", "ca/"}) + name + choose([]string{".yaml", ".json", ".yml"}), cfg: p})
+	}
+	return ps
 }
